@@ -284,6 +284,9 @@ class Exec:
 
     def default_at(self, key):
         if key[0] == 'H':
+            lit = getattr(self, '_literals', {}).get(key[1])
+            if lit is not None:
+                return lit          # `*b"..."` / `*"..."`: the pointee of a literal is the literal's content
             return self.fresh(key[1], key[2])
         # uninitialised local: symbolic of its declared type
         return self.fresh(f'L{key[1]}{key[2]}', key[3] if len(key) > 3 else '')
@@ -327,6 +330,9 @@ class Exec:
         if isinstance(v, Const):
             return Ptr(('H', 'static:' + v.text, ''), (), False, '')
         if isinstance(v, (Bytes, Str)):
+            if not hasattr(self, '_literals'):
+                self._literals = {}
+            self._literals['literal:' + repr(v)] = v
             return Ptr(('H', 'literal:' + repr(v), ''), (), False, '')
         raise Unmodelled(f'deref of non-pointer {vrepr(v)}')
 
@@ -387,6 +393,8 @@ class Exec:
                 return VarView(v, pr[1])
             raise Unmodelled(f'downcast of {vrepr(v)}')
         if k == 'cindex':
+            if isinstance(v, Bytes):
+                v = bytes_to_agg(v)
             if isinstance(v, Agg) and pr[1] < len(v.fields):
                 return v.fields[pr[1]]
             if isinstance(v, Sym):
@@ -1133,7 +1141,8 @@ class Exec:
             # match by source span: `{coroutine@f:l:c: l:c (#0)}` and `{async block@f:l:c: l:c}` name the same body
             for fs in self.prog.fns.values():
                 for f in fs:
-                    if f.args and re.search(r'\{closure#\d+\}$', f.raw) and ('@' + msp.group(1)) in f.decl.get(f.args[0], ''):
+                    if f.args and re.search(r'\{closure#\d+\}$', f.raw) and (('@' + msp.group(1)) in f.decl.get(f.args[0], '')
+                                                                              or getattr(f, 'body_span', None) == msp.group(1)):
                         res = f
                         break
                 if res:
